@@ -143,6 +143,7 @@ class Run:
         self.cache = {}
         self.mutations = []
         self.top_bounds = []
+        self.closed = False
         self.busy_rng = random.Random(len(json.dumps(prog)))
         self.events = []
         self.schedule = []      # rt: ['top', now] | ['wake', rid, now]
@@ -319,6 +320,14 @@ class Run:
                 raise
             except GeneratorExit:
                 raise
+            cl = run.prog.get('close')
+            if cl and cl['body'] == r and not run.closed:
+                # the score is closed from INSIDE this routine, at its logical time
+                run.closed = True
+                if cl['how'] == 'finish':
+                    main._osc_interface._osc_score.finish(num(cl['tail']))
+                else:
+                    main.process(num(cl['tail']))
             run.on_end(rid, k, False)
         return body
 
